@@ -68,7 +68,9 @@ def build_driver(timeout=600):
     os.makedirs(gen, exist_ok=True)
     exe = os.path.join(OCAML, 'driver.exe')
     srcs = [os.path.join(COQ, 'extract', 'Extract.v'), os.path.join(OCAML, 'driver.ml')]
-    vos = [os.path.join(dp, f) for dp, _, fs in os.walk(COQ) for f in fs if f.endswith('.vo')]
+    # the property files (props/*.vo, re-checked by every run) are not part of the extracted model
+    vos = [os.path.join(dp, f) for dp, _, fs in os.walk(COQ) for f in fs if f.endswith('.vo')
+           and os.path.basename(dp) not in ('props', 'extract')]
     newest = max([os.path.getmtime(p) for p in srcs + vos] or [0])
     if os.path.exists(exe) and os.path.getmtime(exe) >= newest:
         return True, 'driver up to date'
